@@ -200,7 +200,7 @@ def report(run, oid, results, functions, what):
     run.add_ob(ob); return ob
 
 
-def attach(run, prefix, want=(), dl1=False):
+def attach(run, prefix, want=(), dl1=False, dl1_splines=False):
     """adds the data-lemma obligations a property needs (built from /repo's current generator and data files)"""
     from .headers import macros
     H = macros(run)
@@ -215,5 +215,50 @@ def attach(run, prefix, want=(), dl1=False):
     if dl1:
         report(run, prefix + '/DL1', dl1_scalar(run, T, H), ['pr_data.c', 'xrayfiles.c', 'data/*.dat'],
                'DL1: every cell of the eleven regenerated scalar tables equals the data-file record of the same element and NAME (unit-converted, 1e-10 relative), absent cells are non-positive')
+    if dl1_splines:
+        report(run, prefix + '/DL1-splines', dl1_spline(run, T, H), ['pr_data.c', 'xrayfiles.c', 'data/*.dat'],
+               'DL1: knots, ordinates and second derivatives of the eight interpolated families equal the data files record by record; an element has a table iff the file has a block for it')
     run.assumptions.append('data lemma (direct evaluation, not a solver claim): tables regenerated with a native build of the current pr_data.c/xrayfiles.c in %.1fs' % T.build_s)
     return T
+
+
+SPLINE_FILES = [  # file, leading element count?, N table, X table, Y table, Y2 table
+    ('CS_Photo.dat', False, 'NE_Photo', 'E_Photo_arr', 'CS_Photo_arr', 'CS_Photo_arr2'),
+    ('CS_Rayl.dat', False, 'NE_Rayl', 'E_Rayl_arr', 'CS_Rayl_arr', 'CS_Rayl_arr2'),
+    ('CS_Compt.dat', False, 'NE_Compt', 'E_Compt_arr', 'CS_Compt_arr', 'CS_Compt_arr2'),
+    ('FF.dat', False, 'Nq_Rayl', 'q_Rayl_arr', 'FF_Rayl_arr', 'FF_Rayl_arr2'),
+    ('SF.dat', False, 'Nq_Compt', 'q_Compt_arr', 'SF_Compt_arr', 'SF_Compt_arr2'),
+    ('fi.dat', False, 'NE_Fi', 'E_Fi_arr', 'Fi_arr', 'Fi_arr2'),
+    ('fii.dat', False, 'NE_Fii', 'E_Fii_arr', 'Fii_arr', 'Fii_arr2'),
+    ('CS_Energy.dat', True, 'NE_Energy', 'E_Energy_arr', 'CS_Energy_arr', 'CS_Energy_arr2'),
+]
+
+
+def dl1_spline(run, T, H):
+    """every (knot, ordinate, second derivative) triple of the eight interpolated families equals the data-file record of the
+    same element and position; an element has a table iff the data file has a block for it"""
+    D = os.path.join(core.REPO, 'data'); Z1 = H['ZMAX'] + 1; res = []
+    def close(a, b): return a == b or abs(a - b) <= 1e-9 * max(abs(a), abs(b), 1e-300)
+    for path, lead, NN, X, Y, Y2 in SPLINE_FILES:
+        toks = open(os.path.join(D, path)).read().split()
+        pos = 0; blocks = {}
+        nz = None
+        if lead: nz = int(toks[0]); pos = 1
+        z = 1
+        while pos < len(toks) and z <= H['ZMAX'] and (nz is None or z <= nz):
+            n = int(toks[pos]); pos += 1
+            vals = [float(t) for t in toks[pos:pos + 3 * n]]; pos += 3 * n
+            blocks[z] = (n, vals); z += 1
+        N = T.i1(NN, Z1); xa = T.p1(X, Z1); ya = T.p1(Y, Z1); y2 = T.p1(Y2, Z1)
+        bad = []; cells = 0
+        for z in range(1, Z1):
+            if z in blocks:
+                n, vals = blocks[z]
+                if N[z] != n: bad.append('%s[%d]=%d, data file block has %d records' % (NN, z, N[z], n)); continue
+                for i in range(n):
+                    cells += 3
+                    if not (close(xa[z][i], vals[3 * i]) and close(ya[z][i], vals[3 * i + 1]) and close(y2[z][i], vals[3 * i + 2])):
+                        bad.append('%s Z=%d record %d: generated (%r,%r,%r) vs file (%r,%r,%r)' % (path, z, i, xa[z][i], ya[z][i], y2[z][i], vals[3 * i], vals[3 * i + 1], vals[3 * i + 2])); break
+            elif N[z] >= 0: bad.append('%s[%d]=%d but %s has no block for this element' % (NN, z, N[z], path))
+        res.append(('%s/%s/%s == %s (%d elements)' % (X, Y, Y2, path, len(blocks)), not bad, '; '.join(bad[:4]), cells))
+    return res
